@@ -22,7 +22,7 @@ const EXTRA: &[&str] = &[
     "\u{a0}", "\u{3000}", "İ", "ǅ", "\u{200d}", "\u{1F1E6}", "\u{1F1FA}", "x", "A", "\t", "0", "'", "{", "\\", "한",
     "\u{feff}", "\u{1F468}", "\u{1F469}", "e", "\u{308}", "ſ", "ﬁ", "Σ", "\u{85}", "\u{2028}",
 ];
-const PATTERNS: &[&str] = &["a", ",", "é", "字", "😀", "\u{301}", "\r", "\n", " ", "ß", "\r\n", ",,", "a,", "é\u{301}", "aa"];
+const PATTERNS: &[&str] = &["", "a", ",", "é", "字", "😀", "\u{301}", "\r", "\n", " ", "ß", "\r\n", ",,", "a,", "é\u{301}", "aa"];
 const NUM_ALPHABET: &[&str] = &["0", "1", "9", "x", "b", "o", "f", "e", "+", "-", ".", "_", " ", "i", "n", "a", "é"];
 const ESC_ALPHABET: &[&str] = &[
     "\\", "n", "r", "t", "x", "u", "{", "}", "4", "1", "f", "\"", "\n", "\r\n", " ", "é", "a", "g", "d", "8", "0", "'", "\t",
@@ -165,8 +165,8 @@ export bytes = |s| s.bytes().to_tuple()
 export lines = |s| s.lines().to_tuple()
 export trim = |s| (s.trim(), s.trim_start(), s.trim_end())
 export trimp = |s, p| (s.trim(p), s.trim_start(p), s.trim_end(p))
-export split = |s, p| s.split(p).to_tuple()
-export splitw = |s, p| s.split(|c| c == p).to_tuple()
+export split = |s, p| s.split(p).take((size s) + 4).to_tuple()
+export splitw = |s, p| s.split(|c| c == p).take((size s) + 4).to_tuple()
 export stripp = |s, p| s.strip_prefix p
 export strips = |s, p| s.strip_suffix p
 export contains = |s, p| s.contains p
@@ -877,6 +877,10 @@ impl Ctx {
                         if pieces.join(p.as_bytes()) != s.as_bytes() {
                             out.d_fail.push(("split_join".into(), "pieces re-joined with the pattern do not reproduce the string".into()));
                         }
+                        // collected through take(len + 4): a legitimate split has at most chars + 2 pieces
+                        if pieces.len() >= s.len() + 4 {
+                            out.d_fail.push(("split:nontermination".into(), format!("{} pieces from a {}-byte string: the iterator does not end", pieces.len(), s.len())));
+                        }
                     }
                 }
                 // split with predicate (cluster == p)
@@ -893,11 +897,24 @@ impl Ctx {
                                 want.last_mut().unwrap().extend_from_slice(g.as_bytes());
                             }
                         }
-                        if want.last().is_some_and(|x| x.is_empty()) {
-                            want.pop();
-                        }
+                        // `want` = split at every cluster for which the predicate holds (a separator at the
+                        // very end is followed by an empty piece, as for `split(pattern)`)
                         if pieces != want {
-                            out.d_fail.push(("split_with:pieces".into(), format!("expected {:?}", want)));
+                            let mut short = want.clone();
+                            if short.last().is_some_and(|x| x.is_empty()) {
+                                short.pop();
+                            }
+                            if pieces == short {
+                                out.attributed.push((
+                                    "F-C15-6".into(),
+                                    format!("split with a predicate dropped the empty piece after the last separator: {} pieces, expected {}", pieces.len(), want.len()),
+                                ));
+                            } else {
+                                out.d_fail.push(("split_with:pieces".into(), format!("expected {:?}", want)));
+                            }
+                        }
+                        if pieces.len() >= s.len() + 4 {
+                            out.d_fail.push(("split_with:nontermination".into(), format!("{} pieces from a {}-byte string", pieces.len(), s.len())));
                         }
                     }
                 }
@@ -1453,7 +1470,7 @@ fn string_requests(d: &Desc, full_set: bool, out: &mut Vec<String>) {
             out.push(format!("repeat {} {}", dt, k));
         }
     } else {
-        for p in [",", "é", "\r\n"] {
+        for p in [",", "é", "\r\n", ""] {
             out.push(format!("pat {} {} {}", dt, hex(p.as_bytes()), g));
         }
     }
@@ -1648,7 +1665,7 @@ fn main() {
             enumerate(OV, len, &mut |s| ov_subjects.push(s));
         }
         let mut ov_patterns: Vec<String> = vec![];
-        for len in 1..=3 {
+        for len in 0..=3 {
             enumerate(OV, len, &mut |s| ov_patterns.push(s));
         }
         let mut pairs: Vec<(String, String)> = vec![];
@@ -1845,7 +1862,7 @@ fn main() {
         for _ in 0..3 {
             let i = rng.below(cs.len());
             let j = (i + 1 + rng.below(2)).min(cs.len());
-            let p: String = cs[i..j].concat();
+            let p: String = if rng.chance(1, 6) { String::new() } else { cs[i..j].concat() };
             reqs.push(format!("pat {} {} {}", dt, hex(p.as_bytes()), g));
             reqs.push(format!("trimp {} {}", dt, hex(p.as_bytes())));
             let t = (*rng.pick(&all)).to_string();
